@@ -50,6 +50,8 @@ type fnExec struct {
 	lets map[string]TV
 	// boxed non-pointer values held in interfaces, by ref term
 	boxed   map[string]TV
+	lastPFParts []string
+	lastPFDesc  []string
 	depth   int
 	nret    int
 	kwCache map[StrV]string
